@@ -756,3 +756,67 @@ Proof.
   eexists. split; [vm_compute; reflexivity|]. split; [|vm_compute; reflexivity]. exact I.
 Qed.
 End Needed.
+
+(* ------------------------------------------------------------------------ *)
+(* corollary: every read is dominated by its definition                      *)
+(* ------------------------------------------------------------------------ *)
+(* SsaProofs.ssa_check_read_defined_on_path, from the dynamic statement alone *)
+Lemma paths_ok_read_defined c pi bi b s v n :
+  (forall p, path_from_entry c p -> exists L, exec_path c (params_map (c_params c)) p = Some L) ->
+  path_from_entry c (pi ++ [bi]) ->
+  nth_error (c_blocks c) bi = Some b -> In s (b_stmts b) -> is_phi_stmt s = false ->
+  In v (stmt_reads s) -> vn_version v = Some n ->
+  update_base s = Some v \/
+  vget (params_map (c_params c)) (key_of v) = Some n \/
+  defined_on c (pi ++ [bi]) (key_of v) n.
+Proof.
+  intros Hall Hp Hb Hs Hnphi Hv Hn.
+  destruct (Hall _ Hp) as [Lf Hex].
+  destruct (exec_path_app c pi [bi] _ _ Hex) as (L1 & Hpre & Hlast).
+  cbn [exec_path] in Hlast. rewrite Hb in Hlast.
+  destruct (enter_block L1 b) as [L2|] eqn:Ee; [|discriminate]. clear Hlast.
+  unfold enter_block in Ee. destruct (leading_phis (b_stmts b)) as [phis body] eqn:El.
+  destruct (forallb (phi_read_ok L1) phis) eqn:Ephi; [|discriminate].
+  pose proof (leading_phis_app _ _ _ El) as Happ.
+  assert (Hsb : In s body).
+  { rewrite Happ in Hs. apply in_app_or in Hs as [Hs|Hs]; [|exact Hs].
+    pose proof (leading_phis_are_phis _ _ _ El) as Hf. rewrite Forall_forall in Hf. specialize (Hf s Hs). congruence. }
+  apply in_split in Hsb as (pre & post & Hsplit). rewrite Hsplit in Ee.
+  destruct (body_run_split pre s post _ _ Ee) as (m1 & Hm1 & Hok).
+  unfold body_stmt_ok in Hok. apply andb_true_iff in Hok as [_ Hreads]. rewrite forallb_forall in Hreads.
+  specialize (Hreads v Hv). unfold read_ok in Hreads. rewrite Hn in Hreads.
+  destruct (vget m1 (key_of v)) as [n'|] eqn:Eg.
+  - apply N.eqb_eq in Hreads. subst n'.
+    destruct (body_run_vget _ _ _ _ _ Hm1 Eg) as [H1|(s' & Hin & Hset)].
+    + destruct (apply_phis_vget _ _ _ _ H1) as [H2|(s' & Hin & Hset)].
+      * destruct (exec_path_vget c pi _ _ _ _ Hpre H2) as [H3|(j & b' & s' & Hj & Hb' & Hs' & Hset)].
+        -- right. left. exact H3.
+        -- right. right. exists j, b', s'. repeat split; auto. apply in_or_app. left. exact Hj.
+      * right. right. exists bi, b, s'. repeat split; auto.
+        -- apply in_or_app. right. left. reflexivity.
+        -- rewrite Happ. apply in_or_app. left. exact Hin.
+    + right. right. exists bi, b, s'. repeat split; auto.
+      * apply in_or_app. right. left. reflexivity.
+      * rewrite Happ, Hsplit. apply in_or_app. right. apply in_or_app. left. exact Hin.
+  - destruct (update_base s) as [w|] eqn:Eu; [|discriminate]. left. f_equal.
+    apply vname_eqb_true_eq. exact Hreads.
+Qed.
+
+(* in the output of the construction, on every path from the entry that ends in the block of a read,
+   the version the read names has been assigned by a statement of that path (or is the parameter's
+   version, or the fresh base version of an element-wise update): the definition dominates the read *)
+Theorem into_ssa_read_defined_on_path : forall frontier children c c' pi bi b s v n,
+  ssa_dyn_pre_ok c = true ->
+  children_treeb children (length (c_blocks c)) = true ->
+  creach c -> children_sound c children -> frontier_exact c frontier ->
+  into_ssa frontier children c = SOk c' ->
+  path_from_entry c' (pi ++ [bi]) ->
+  nth_error (c_blocks c') bi = Some b -> In s (b_stmts b) -> is_phi_stmt s = false ->
+  In v (stmt_reads s) -> vn_version v = Some n ->
+  update_base s = Some v \/
+  vget (params_map (c_params c')) (key_of v) = Some n \/
+  defined_on c' (pi ++ [bi]) (key_of v) n.
+Proof.
+  intros frontier children c c' pi bi b s v n H1 H2 H3 H4 H5 H6.
+  apply paths_ok_read_defined. exact (into_ssa_paths_ok frontier children c c' H1 H2 H3 H4 H5 H6).
+Qed.
